@@ -44,6 +44,9 @@ var branchCmd = &cobra.Command{
 
 		// add branch
 		if len(args) == 1 {
+			if client.Head.Commit == nil {
+				return fmt.Errorf("fatal: your current branch '%s' does not have any commits yet", client.Head.Reference)
+			}
 			addBranchName := args[0]
 			addBranchHash := client.Head.Commit.Hash
 
@@ -62,6 +65,9 @@ var branchCmd = &cobra.Command{
 
 		// rename current branch
 		if renameOption != "" {
+			if client.Head.Commit == nil {
+				return fmt.Errorf("fatal: your current branch '%s' does not have any commits yet", client.Head.Reference)
+			}
 			prevBranch := client.Head.Reference
 			if err := client.Refs.RenameBranch(client.RootGoitPath, client.Head.Reference, renameOption); err != nil {
 				return fmt.Errorf("fail to rename branch: %w", err)
